@@ -29,9 +29,30 @@ type FnResult struct {
 // path of the second pass is generated under the same invariants regardless of exploration order.
 func (e *Engine) verifyFunction(fn *ssa.Function, con *Contract, pathLimit int) (res *FnResult) {
 	if fn.Blocks != nil && !(con != nil && con.Trusted) {
-		e.verifyFunctionOnce(fn, con, pathLimit)
+		e.verifyFunctionRestartable(fn, con, pathLimit)
 	}
-	return e.verifyFunctionOnce(fn, con, pathLimit)
+	return e.verifyFunctionRestartable(fn, con, pathLimit)
+}
+
+func (e *Engine) verifyFunctionRestartable(fn *ssa.Function, con *Contract, pathLimit int) (res *FnResult) {
+	for tries := 0; ; tries++ {
+		again := false
+		func() {
+			defer func() {
+				if r := recover(); r != nil {
+					if _, ok := r.(restartWithoutInlining); ok && tries < 16 {
+						again = true
+						return
+					}
+					panic(r)
+				}
+			}()
+			res = e.verifyFunctionOnce(fn, con, pathLimit)
+		}()
+		if !again {
+			return res
+		}
+	}
 }
 
 func (e *Engine) verifyFunctionOnce(fn *ssa.Function, con *Contract, pathLimit int) (res *FnResult) {
@@ -138,6 +159,12 @@ func (e *Engine) verifyFunctionOnce(fn *ssa.Function, con *Contract, pathLimit i
 				}
 				x.emit(st, "invariant-entry", fmt.Sprintf("loop%d.%s", cl.Loop, name), cl.Text+fmt.Sprintf("   [cannot be established: %s has %d loop(s), the contract names loop %d]", fn.Name(), nl, cl.Loop), cl.Props, TFalse)
 			}
+		}
+		// Slice capacity is not modelled: append is a copy into a new backing array. That is wrong exactly when the
+		// appended-to slice is a bounded re-slice x[:k] of memory this function did not allocate (the append then
+		// writes into x's array, in place). Such an append is outside what the frame obligations can vouch for.
+		for _, site := range appendsInPlace(fn) {
+			x.emit(st, "frame", "append-in-place", "append never extends a re-slice of a backing array this function did not allocate (slice capacity is not modelled; such an append overwrites the caller's elements in place): "+site, nil, TFalse)
 		}
 		for _, cl := range con.Clauses {
 			if cl.Kind == "let" {
@@ -259,6 +286,30 @@ func (x *Exec) rootReturn(st *State, f *Frame, res []Val) {
 			x.emit(st, "cover", "ensures."+clauseLabel(cl, n), "antecedent reachable: "+cl.E.Args[0].String(), nil, Not(a))
 		}
 		n++
+	}
+	// `fresh e`: callers assume that e is nil or an object that did not exist before the call
+	for _, cl := range con.Clauses {
+		if cl.Kind != "fresh" {
+			continue
+		}
+		lbl := strings.TrimSpace(strings.TrimPrefix(strings.TrimSpace(cl.Text), "fresh"))
+		if lbl == "" {
+			lbl = cl.E.String()
+		}
+		var g Term
+		func() {
+			defer func() {
+				if r := recover(); r != nil {
+					if _, ok := r.(specError); !ok {
+						panic(r)
+					}
+					g = TFalse
+				}
+			}()
+			r := env.refOf(env.eval(cl.E))
+			g = Or(Eq(r, IntLit(0)), Not(Term{fmt.Sprintf("(select %s %s)", st.alloc0.Name, r.S), SBool}))
+		}()
+		x.emit(st, "fresh", lbl, "nil or allocated by this call: "+cl.E.String(), cl.Props, g)
 	}
 	x.frameObligations(st, env, con)
 }
@@ -501,4 +552,87 @@ func (x *Exec) tryClause(env *Env, e *Expr) (g Term, msg string) {
 		}
 	}()
 	return env.evalBool(e), ""
+}
+
+// appendsInPlace lists the append calls of fn whose first argument derives (through phis and earlier
+// appends) from a bounded re-slice x[lo:hi] of a slice that fn did not allocate itself.
+// builtLocally: v is a slice that derives only from allocations of the enclosing function (a literal, make,
+// nil), re-slices of those, and appends to those.
+func builtLocally(v ssa.Value) bool { return isLocalSlice(v, map[ssa.Value]bool{}) }
+
+func isLocalSlice(v ssa.Value, seen map[ssa.Value]bool) bool {
+	if seen[v] {
+		return true
+	}
+	seen[v] = true
+	switch t := v.(type) {
+	case *ssa.Alloc:
+		return t.Heap || true
+	case *ssa.MakeSlice:
+		return true
+	case *ssa.Const:
+		return true
+	case *ssa.Phi:
+		for _, e := range t.Edges {
+			if !isLocalSlice(e, seen) {
+				return false
+			}
+		}
+		return true
+	case *ssa.Slice:
+		return isLocalSlice(t.X, seen)
+	case *ssa.Call:
+		if b, ok := t.Call.Value.(*ssa.Builtin); ok && b.Name() == "append" {
+			return isLocalSlice(t.Call.Args[0], seen)
+		}
+	}
+	return false
+}
+
+func appendsInPlace(fn *ssa.Function) []string {
+	var out []string
+	isLocal := isLocalSlice
+	var tainted func(v ssa.Value, seen map[ssa.Value]bool) bool
+	tainted = func(v ssa.Value, seen map[ssa.Value]bool) bool {
+		if seen[v] {
+			return false
+		}
+		seen[v] = true
+		switch t := v.(type) {
+		case *ssa.Phi:
+			for _, e := range t.Edges {
+				if tainted(e, seen) {
+					return true
+				}
+			}
+		case *ssa.Slice:
+			if t.High != nil || t.Low != nil {
+				if _, isStr := t.X.Type().Underlying().(*types.Basic); isStr {
+					return false
+				}
+				return !isLocal(t.X, map[ssa.Value]bool{})
+			}
+			return tainted(t.X, seen)
+		case *ssa.Call:
+			if b, ok := t.Call.Value.(*ssa.Builtin); ok && b.Name() == "append" {
+				return tainted(t.Call.Args[0], seen)
+			}
+		}
+		return false
+	}
+	for _, b := range fn.Blocks {
+		for _, in := range b.Instrs {
+			c, ok := in.(*ssa.Call)
+			if !ok {
+				continue
+			}
+			if bi, ok := c.Call.Value.(*ssa.Builtin); !ok || bi.Name() != "append" {
+				continue
+			}
+			if tainted(c.Call.Args[0], map[ssa.Value]bool{}) {
+				out = append(out, posOf(in))
+			}
+		}
+	}
+	return out
 }
